@@ -270,7 +270,7 @@ def label_requirements(tier: str) -> Dict[str, Any]:
     req: Dict[str, Any] = {"mode:file": 0.3, "mode:dir": 0.3, "ok": 0.15, "fails": 0.3}
     for f in ("raise_value", "raise_keyboard", "raise_abort", "raise_value_empty", "raise_keyboard_empty", "raise_assert_empty", "nonfinite_param",
               "unknown_param", "probe_no_key", "unresolved_parameter", "type_gate", "processor_exception"):
-        req["fault:" + f] = 0.015
+        req["fault:" + f] = 0.015 if f != "nonfinite_param" else 0.008
         for d in ("hash", "repr", "context", "all"):
             req[f"fault:{f}|detail:{d}"] = 1
     req["fault:undeclared_write"] = 3
